@@ -315,3 +315,21 @@ def run(ctx):
     ctx.pmap(_sample_worker, [(n, ctx.sub_seed(sh), 40 if sh % 8 == 0 else 8) for sh in range(16)])
     missing = [f"pair:{a}>{b}" for a in ("agg-open", "agg-close", "leaf-close", "leaf-unclosed", "empty-agg") for b in ("agg-open", "agg-close", "leaf-data", "leaf-cdata", "empty-agg") if ctx.labels.get(f"pair:{a}>{b}", 0) == 0 and not (a == "agg-open" and b == "agg-close")]
     ctx.note("adjacent_token_pairs_never_generated", missing)
+    # supplementary: coverage-guided byte-level fuzzing (atheris); a body the strict scanner finds well-formed must
+    # parse to exactly the scanner's tree
+    from pbt.core import fuzzrun
+
+    res = fuzzrun.campaign("C02", ctx.scale(60000, 1500000), ctx.sub_seed("fuzz"))
+    ctx.note("atheris_campaign", {k: v for k, v in res.items() if k != "finding"})
+    if "finding" in res:
+        from pbt.core import refofx
+
+        text = res["finding"]["text"]
+        v = refofx.classify(text)
+        if v[0] == refofx.WELL_FORMED:
+            case = {"text": text, "want": v[1]}
+            for k, d in check_case(case):
+                ctx.fail("fuzz/" + k, case, d)
+    if res.get("counts"):
+        ctx.count(res["counts"].get("WELL_FORMED", 0))
+        ctx.label("fuzz:WELL_FORMED", res["counts"].get("WELL_FORMED", 0))
